@@ -796,6 +796,7 @@ impl ConnectBuilder {
         self.will_payload_buf = Some(will_payload);
 
         let mut flags = self.connect_flags_buf.unwrap_or([0b0000_0010])[0];
+        flags &= !0b0011_1000; // a repeated call replaces the Will QoS / Will retain set before
         flags |= 0b0000_0100; // Will flag
         flags |= (qos as u8) << 3; // Will QoS
         if retain {
